@@ -48,6 +48,9 @@ def build_pool():
     hot += [('fn', '\\x41', F.W, 'x41'), ('fn', '\\x41', F.W | F.R, 'A'), ('fn', '\\x2a', F.W | F.R, 'zz'), ('fn', '\\x2a', F.W, 'x2a'),
             ('gm', '\\x41', G.W, 'x41'), ('gm', '\\x41', G.W | G.R, 'A'), ('fnb', '\\x41', F.W | F.R, 'A'), ('fnb', '\\x41', F.W, 'x41'),
             ('fn', '\\x41', F.R, 'A'), ('fn', '\\x41', 0, 'x41')]
+    # texts that split differently with and without path semantics (a bar after a separator inside a bracket), asked through both
+    hot += [('fn', '[a/|b]', F.S, 'b]'), ('gm', '[a/|b]', G.S, 'b]'), ('fn', '[a/|b]', F.S, '|'), ('gm', '[a/|b]', G.S, '[a/'),
+            ('fn', '[a\\\\|b]', F.S | F.W, 'b]'), ('gm', '[a\\\\|b]', G.S | G.W, 'b]'), ('gm', 'x|[a/|b]', G.S, 'x'), ('fn', 'x|[a/|b]', F.S, '/')]
     # the same exclude= patterns under flag sets that differ in a flag acting on the exclusion side only (NODIR, DOTGLOB, ...)
     hot += [('gmx', '*', G.O, 'a/'), ('gmx', '*', 0, 'a/'), ('gmx', '*', G.O, 'a'), ('gmx', '*', 0, 'a'), ('gmx', '**', G.G | G.O, 'x/y/'),
             ('gmx', '**', G.G, 'x/y/'), ('gmx', '*', G.O | G.D, '.a/'), ('gmx', '*', G.D, '.a/'), ('fnx', '*', 0, 'ba'), ('fnx', '*', F.I, 'Ba'),
